@@ -72,6 +72,13 @@ impl<'a, C: Context> Readable<'a, C> for Locator {
     let repr = repr::Locator::read_from(reader)?;
     Ok(repr.into())
   }
+
+  // Needed so that reading a Vec<Locator> checks the element count against the
+  // remaining input before allocating.
+  #[inline]
+  fn minimum_bytes_needed() -> usize {
+    <repr::Locator as Readable<'a, C>>::minimum_bytes_needed()
+  }
 }
 
 impl<C: Context> Writable<C> for Locator {
